@@ -314,8 +314,11 @@ def cm2(model):
     calls = [n for n in ast.walk(sk.node) if isinstance(n, ast.Call) and unparse(n.func).startswith('re.')]
     for c in calls:
         name = T.call_name(c)
-        src = unparse(c.args[0]) if c.args else ''
-        both = ("'\\\\A'" in src or "'^'" in src) and ("'\\\\Z'" in src or "'$'" in src)
+        lits = [x.value for x in sorted((y for y in ast.walk(c.args[0]) if isinstance(y, ast.Constant)
+                                        and isinstance(y.value, str)), key=lambda y: (y.lineno, y.col_offset))] \
+            if c.args else []
+        both = bool(lits) and (lits[0].startswith('\\A') or lits[0].startswith('^')) \
+            and (lits[-1].endswith('\\Z') or lits[-1].endswith('$'))
         if name == 'fullmatch' or both:
             r.ok(c, 'the --skip pattern has to match the whole name', nontrivial=True)
         else:
